@@ -20,7 +20,7 @@ RULE = ("case = (key, prefix, allow_unicode_keys, path); path in helper (check_k
         "248..252 from 1/2/3/4-byte UTF-8 characters; prefix lengths 0..250 crossing 250 at every split; str and "
         "bytes prefixes. Hypothesis: random keys/prefixes. Oracle: an independent predicate (encode, prepend, <=250 "
         "bytes, none of the 7 forbidden bytes); accepted => returned/transmitted key == prefix+encoded; rejected => "
-        "MemcacheIllegalInputError. Keys whose prefixed form is empty are excluded (C02 covers them). Non-trivial: "
+        "MemcacheIllegalInputError - also with ignore_exc=True on Client and HashClient, whose key check sits outside the handlers that turn failures into misses (PooledClient's read wrappers swallow every exception under ignore_exc by design, so that combination is not generated). Keys whose prefixed form is empty are excluded (C02 covers them). Non-trivial: "
         "the key contains a forbidden or non-ASCII byte, or prefix+key is within 2 bytes of 250.")
 MANIFEST = {
     "category": "exploration",
@@ -64,9 +64,9 @@ def _nontrivial(key, prefix, au):
     return any(b in FORBIDDEN or b >= 0x80 for b in enc) or 248 <= n <= 252
 
 
-def _wire(kind, key, prefix, au):
+def _wire(kind, key, prefix, au, ignore_exc=False):
     env = Env()
-    c = env.client(kind, key_prefix=prefix, allow_unicode_keys=au)
+    c = env.client(kind, key_prefix=prefix, allow_unicode_keys=au, ignore_exc=ignore_exc)
     r = env.call(c.get, key)
     srv = env.server
     sent = any(e[3] == "sendall" for e in env.net.log)
@@ -105,9 +105,10 @@ def check(case):
             if got != want or type(got) is not bytes:
                 raise Violation(["wrong-wire-key", path], "returned %r, expected %r: %s" % (got, want, desc))
     else:
-        kind = {"wire-client": "client", "wire-pooled": "pooled", "wire-hash": "hash", "wire-hash-pooled": "hash-pooled"}[path]
+        kind = {"wire-client": "client", "wire-pooled": "pooled", "wire-hash": "hash", "wire-hash-pooled": "hash-pooled",
+                "wire-client-ie": "client", "wire-hash-ie": "hash", "wire-hash-pooled-ie": "hash-pooled"}[path]
         try:
-            r, srv, sent, env = _wire(kind, key, prefix, au)
+            r, srv, sent, env = _wire(kind, key, prefix, au, ignore_exc=path.endswith("-ie"))
         except Exception as e:  # noqa: BLE001   constructor refused the configuration
             raise Violation(["constructor", path, type(e).__name__], "constructing the client raised %r: %s" % (e, desc))
         if want is None:
@@ -131,7 +132,7 @@ def _paths_cheap():
 
 def class_cases(tier, seed):
     """all keys of length 1-3 over the 16 representatives, as bytes and as str, every path"""
-    wire = ["wire-client", "wire-pooled", "wire-hash"]
+    wire = ["wire-client", "wire-pooled", "wire-hash", "wire-client-ie", "wire-hash-ie", "wire-hash-pooled-ie"]
     for n in (1, 2, 3):
         for t in itertools.product(REPS, repeat=n):
             kb = bytes(t)
@@ -144,7 +145,7 @@ def class_cases(tier, seed):
                     if n <= 2 or tier == "thorough":
                         for path in wire:
                             yield (kb, prefix, au, path)
-                        yield (ks, prefix, au, wire[(t[0] + n) % 3])
+                        yield (ks, prefix, au, wire[(t[0] + n) % 6])
 
 
 def full_alphabet_cases(tier, seed):
@@ -227,7 +228,8 @@ def random_strategy(tier):
     prefix = st.one_of(st.just(b""), st.binary(max_size=12),
                        st.integers(0, 250).map(lambda n: b"P" * n),
                        st.text(st.characters(min_codepoint=0x21, max_codepoint=0x7E), max_size=10))
-    path = st.sampled_from(["helper", "client", "pooled", "wire-client", "wire-pooled", "wire-hash", "wire-hash-pooled"])
+    path = st.sampled_from(["helper", "client", "pooled", "wire-client", "wire-pooled", "wire-hash", "wire-hash-pooled",
+                            "wire-client-ie", "wire-hash-ie", "wire-hash-pooled-ie"])
     return st.tuples(st.one_of(skey, bkey, longk), prefix, st.booleans(), path)
 
 
